@@ -34,6 +34,7 @@ type Trace struct {
 	Obj      string       `json:"obj"`                 // sparse | bytes | overlay | regs
 	BaseKind string       `json:"base_kind,omitempty"` // overlay: bytes | sparse
 	Init     []InitBlock  `json:"init,omitempty"`      // bytes / overlay-over-bytes
+	Shared   bool         `json:"shared,omitempty"`    // the initial blocks are windows into one buffer (in trace order)
 	BaseOps  []Op         `json:"base_ops,omitempty"`  // overlay-over-sparse: stores applied to the base first
 	Vals     []*refeval.J `json:"vals"`
 	Ops      []Op         `json:"ops"`
